@@ -73,6 +73,7 @@ def qual_single(t):
 
 def fed_query(rng, single=False):
     g = selgen.Gen(rng, qual=qual_single if single else qual_multi)
+    g.nested_with = single          # WITH clauses of nested queries: one integration can run them as they are
     text, ordered = g.query()
     return text, ordered, g.features
 
